@@ -235,6 +235,7 @@ struct Counted {
 impl Counted {
     fn new(security: u8, key16: &[u8; 16], iv: &[u8; 16], what: &'static str) -> Self {
         let (kind, key) = if security == SEC_CHACHA20_POLY1305 { (AeadKind::ChaCha20Poly1305, vmess_chacha_key(key16).to_vec()) } else { (AeadKind::Aes128Gcm, key16.to_vec()) };
+        crate::diag_key(&key);
         Self { kind, key, iv: *iv, count: 0, what }
     }
     fn nonce(&self) -> [u8; 12] {
